@@ -161,152 +161,184 @@ scal!(u16, Kind::U16, |b: u64| b as u16, |v: u16| v as u64);
 scal!(u32, Kind::U32, |b: u64| b as u32, |v: u32| v as u64);
 scal!(u64, Kind::U64, |b: u64| b, |v: u64| v);
 
-/// Struct with public fields, each itself a Subject.
-macro_rules! rec {
-    ($name:literal, $T:ident < $P:ident > { $($f:ident : $FT:ty),+ }) => {
-        impl<$P: Subject + Copy> Subject for $T<$P> {
-            fn type_name() -> String { format!("{}<{}>", $name, <$P as Subject>::type_name()) }
-            fn shape() -> Shape { Shape::Rec(vec![$((stringify!($f), <$FT as Subject>::shape())),+]) }
-            fn gen_kinds(out: &mut Vec<(Kind, GenClass)>) { $(<$FT as Subject>::gen_kinds(out);)+ }
-            fn build(c: &mut Cur) -> Self { $(let $f = <$FT as Subject>::build(c);)+ $T { $($f),+ } }
+// Every impl below is for a *concrete* type. A generic `impl<S: Subject> Subject for Vector3<S>`
+// would have to prove `Vector3<S>: Serialize` from cgmath's own where-clauses, and would stop
+// compiling the moment a change to cgmath tightens a serde bound (e.g. `serde(bound = "A: Zero")`):
+// the harness must keep building so that it can judge such a change by running it.
+
+macro_rules! fty {
+    (; $S:ty) => { $S };
+    ($C:ident; $S:ty) => { $C<$S> };
+}
+
+macro_rules! rec_one {
+    ($name:literal, $T:ident, $S:ty, { $($f:ident : [$($C:ident)?]),+ }) => {
+        impl Subject for $T<$S> {
+            fn type_name() -> String { format!("{}<{}>", $name, <$S as Subject>::type_name()) }
+            fn shape() -> Shape { Shape::Rec(vec![$((stringify!($f), <fty!($($C)?; $S) as Subject>::shape())),+]) }
+            fn gen_kinds(out: &mut Vec<(Kind, GenClass)>) { $(<fty!($($C)?; $S) as Subject>::gen_kinds(out);)+ }
+            fn build(c: &mut Cur) -> Self { $(let $f = <fty!($($C)?; $S) as Subject>::build(c);)+ $T { $($f),+ } }
             fn read(&self, out: &mut Vec<u64>) { $(self.$f.read(out);)+ }
-            fn faithful() -> bool { true $(&& <$FT as Subject>::faithful())+ }
+            fn faithful() -> bool { true $(&& <fty!($($C)?; $S) as Subject>::faithful())+ }
         }
     };
 }
 
-rec!("Vector1", Vector1<S> { x: S });
-rec!("Vector2", Vector2<S> { x: S, y: S });
-rec!("Vector3", Vector3<S> { x: S, y: S, z: S });
-rec!("Vector4", Vector4<S> { x: S, y: S, z: S, w: S });
-rec!("Point1", Point1<S> { x: S });
-rec!("Point2", Point2<S> { x: S, y: S });
-rec!("Point3", Point3<S> { x: S, y: S, z: S });
-rec!("Matrix2", Matrix2<S> { x: Vector2<S>, y: Vector2<S> });
-rec!("Matrix3", Matrix3<S> { x: Vector3<S>, y: Vector3<S>, z: Vector3<S> });
-rec!("Matrix4", Matrix4<S> { x: Vector4<S>, y: Vector4<S>, z: Vector4<S>, w: Vector4<S> });
-rec!("Quaternion", Quaternion<S> { v: Vector3<S>, s: S });
-rec!("Euler", Euler<S> { x: S, y: S, z: S });
-rec!("PerspectiveFov", PerspectiveFov<S> { fovy: Rad<S>, aspect: S, near: S, far: S });
-rec!("Perspective", Perspective<S> { left: S, right: S, bottom: S, top: S, near: S, far: S });
-rec!("Ortho", Ortho<S> { left: S, right: S, bottom: S, top: S, near: S, far: S });
-rec!("PlanarFov", PlanarFov<S> { fovy: Rad<S>, aspect: S, height: S, near: S, far: S });
+/// Struct with public fields, each itself a Subject, at each listed scalar.
+macro_rules! rec {
+    ($name:literal, $T:ident, [$($S:ty),+], $fields:tt) => {
+        $(rec_one!($name, $T, $S, $fields);)+
+    };
+}
+
+rec!("Vector1", Vector1, [f32, f64, i8, i16, i32, i64, u8, u16, u32, u64], { x: [] });
+rec!("Vector2", Vector2, [f32, f64, i8, i16, i32, i64, u8, u16, u32, u64], { x: [], y: [] });
+rec!("Vector3", Vector3, [f32, f64, i8, i16, i32, i64, u8, u16, u32, u64], { x: [], y: [], z: [] });
+rec!("Vector4", Vector4, [f32, f64, i8, i16, i32, i64, u8, u16, u32, u64], { x: [], y: [], z: [], w: [] });
+rec!("Point1", Point1, [f32, f64, i8, i16, i32, i64, u8, u16, u32, u64], { x: [] });
+rec!("Point2", Point2, [f32, f64, i8, i16, i32, i64, u8, u16, u32, u64], { x: [], y: [] });
+rec!("Point3", Point3, [f32, f64, i8, i16, i32, i64, u8, u16, u32, u64], { x: [], y: [], z: [] });
+rec!("Matrix2", Matrix2, [f32, f64, i32, i64], { x: [Vector2], y: [Vector2] });
+rec!("Matrix3", Matrix3, [f32, f64, i32, i64], { x: [Vector3], y: [Vector3], z: [Vector3] });
+rec!("Matrix4", Matrix4, [f32, f64, i32, i64], { x: [Vector4], y: [Vector4], z: [Vector4], w: [Vector4] });
+rec!("Quaternion", Quaternion, [f32, f64, i32, i64], { v: [Vector3], s: [] });
+rec!("Euler", Euler, [Rad<f32>, Rad<f64>, Deg<f32>, Deg<f64>, f32, f64], { x: [], y: [], z: [] });
+rec!("PerspectiveFov", PerspectiveFov, [f32, f64], { fovy: [Rad], aspect: [], near: [], far: [] });
+rec!("Perspective", Perspective, [f32, f64], { left: [], right: [], bottom: [], top: [], near: [], far: [] });
+rec!("Ortho", Ortho, [f32, f64], { left: [], right: [], bottom: [], top: [], near: [], far: [] });
+rec!("PlanarFov", PlanarFov, [f32, f64], { fovy: [Rad], aspect: [], height: [], near: [], far: [] });
 
 macro_rules! angle {
-    ($name:literal, $T:ident) => {
-        impl<S: Subject + Copy> Subject for $T<S> {
+    ($name:literal, $T:ident, [$($S:ty),+]) => {
+        $(impl Subject for $T<$S> {
             fn type_name() -> String {
-                format!("{}<{}>", $name, S::type_name())
+                format!("{}<{}>", $name, <$S as Subject>::type_name())
             }
             fn shape() -> Shape {
-                Shape::Bare(Box::new(S::shape()))
+                Shape::Bare(Box::new(<$S as Subject>::shape()))
             }
             fn gen_kinds(out: &mut Vec<(Kind, GenClass)>) {
-                S::gen_kinds(out)
+                <$S as Subject>::gen_kinds(out)
             }
             fn build(c: &mut Cur) -> Self {
-                $T(S::build(c))
+                $T(<$S as Subject>::build(c))
             }
             fn read(&self, out: &mut Vec<u64>) {
                 self.0.read(out)
             }
-            fn faithful() -> bool {
-                S::faithful()
-            }
-        }
+        })+
     };
 }
-angle!("Rad", Rad);
-angle!("Deg", Deg);
+angle!("Rad", Rad, [f32, f64]);
+angle!("Deg", Deg, [f32, f64]);
 
-impl<S: BaseFloat + Subject> Subject for Basis2<S> {
-    fn type_name() -> String {
-        format!("Basis2<{}>", S::type_name())
-    }
-    fn shape() -> Shape {
-        Shape::Wrap(Box::new(<Matrix2<S> as Subject>::shape()))
-    }
-    fn gen_kinds(out: &mut Vec<(Kind, GenClass)>) {
-        let mut k = Vec::new();
-        S::gen_kinds(&mut k);
-        out.push((k[0].0, GenClass::Moderate));
-    }
-    fn build(c: &mut Cur) -> Self {
-        let a = S::build(c);
-        Rotation2::from_angle(Rad(a))
-    }
-    fn read(&self, out: &mut Vec<u64>) {
-        let m: &Matrix2<S> = self.as_ref();
-        m.read(out)
-    }
-    fn faithful() -> bool {
-        false
-    }
-}
-
-impl<S: BaseFloat + Subject> Subject for Basis3<S> {
-    fn type_name() -> String {
-        format!("Basis3<{}>", S::type_name())
-    }
-    fn shape() -> Shape {
-        Shape::Wrap(Box::new(<Matrix3<S> as Subject>::shape()))
-    }
-    fn gen_kinds(out: &mut Vec<(Kind, GenClass)>) {
-        let mut k = Vec::new();
-        S::gen_kinds(&mut k);
-        for _ in 0..4 {
-            out.push((k[0].0, GenClass::Moderate));
+macro_rules! basis {
+    ($($S:ty),+) => {
+        $(
+        impl Subject for Basis2<$S> {
+            fn type_name() -> String {
+                format!("Basis2<{}>", <$S as Subject>::type_name())
+            }
+            fn shape() -> Shape {
+                Shape::Wrap(Box::new(<Matrix2<$S> as Subject>::shape()))
+            }
+            fn gen_kinds(out: &mut Vec<(Kind, GenClass)>) {
+                out.push((<$S as Scal>::KIND, GenClass::Moderate));
+            }
+            fn build(c: &mut Cur) -> Self {
+                let a = <$S as Subject>::build(c);
+                Rotation2::from_angle(Rad(a))
+            }
+            fn read(&self, out: &mut Vec<u64>) {
+                let m: &Matrix2<$S> = self.as_ref();
+                m.read(out)
+            }
+            fn faithful() -> bool {
+                false
+            }
         }
-    }
-    fn build(c: &mut Cur) -> Self {
-        let s = S::build(c);
-        let x = S::build(c);
-        let y = S::build(c);
-        let z = S::build(c);
-        Basis3::from_quaternion(&Quaternion::new(s, x, y, z))
-    }
-    fn read(&self, out: &mut Vec<u64>) {
-        let m: &Matrix3<S> = self.as_ref();
-        m.read(out)
-    }
-    fn faithful() -> bool {
-        false
-    }
+
+        impl Subject for Basis3<$S> {
+            fn type_name() -> String {
+                format!("Basis3<{}>", <$S as Subject>::type_name())
+            }
+            fn shape() -> Shape {
+                Shape::Wrap(Box::new(<Matrix3<$S> as Subject>::shape()))
+            }
+            fn gen_kinds(out: &mut Vec<(Kind, GenClass)>) {
+                for _ in 0..4 {
+                    out.push((<$S as Scal>::KIND, GenClass::Moderate));
+                }
+            }
+            fn build(c: &mut Cur) -> Self {
+                let s = <$S as Subject>::build(c);
+                let x = <$S as Subject>::build(c);
+                let y = <$S as Subject>::build(c);
+                let z = <$S as Subject>::build(c);
+                Basis3::from_quaternion(&Quaternion::new(s, x, y, z))
+            }
+            fn read(&self, out: &mut Vec<u64>) {
+                let m: &Matrix3<$S> = self.as_ref();
+                m.read(out)
+            }
+            fn faithful() -> bool {
+                false
+            }
+        }
+        )+
+    };
+}
+basis!(f32, f64);
+
+macro_rules! decomposed {
+    ($([$V:ty, $R:ty, $S:ty]),+ $(,)?) => {
+        $(
+        impl Subject for Decomposed<$V, $R> {
+            fn type_name() -> String {
+                format!("Decomposed<{},{}>", <$V as Subject>::type_name(), <$R as Subject>::type_name())
+            }
+            fn shape() -> Shape {
+                Shape::Rec(vec![
+                    ("scale", <$S as Subject>::shape()),
+                    ("rot", <$R as Subject>::shape()),
+                    ("disp", <$V as Subject>::shape()),
+                ])
+            }
+            fn gen_kinds(out: &mut Vec<(Kind, GenClass)>) {
+                <$S as Subject>::gen_kinds(out);
+                <$R as Subject>::gen_kinds(out);
+                <$V as Subject>::gen_kinds(out);
+            }
+            fn build(c: &mut Cur) -> Self {
+                let scale = <$S as Subject>::build(c);
+                let rot = <$R as Subject>::build(c);
+                let disp = <$V as Subject>::build(c);
+                Decomposed { scale, rot, disp }
+            }
+            fn read(&self, out: &mut Vec<u64>) {
+                self.scale.read(out);
+                self.rot.read(out);
+                self.disp.read(out);
+            }
+            fn faithful() -> bool {
+                <$S as Subject>::faithful() && <$R as Subject>::faithful() && <$V as Subject>::faithful()
+            }
+        }
+        )+
+    };
 }
 
-impl<V, R> Subject for Decomposed<V, R>
-where
-    V: Subject + VectorSpace,
-    V::Scalar: Subject,
-    R: Subject,
-{
-    fn type_name() -> String {
-        format!("Decomposed<{},{}>", V::type_name(), R::type_name())
-    }
-    fn shape() -> Shape {
-        Shape::Rec(vec![
-            ("scale", <V::Scalar as Subject>::shape()),
-            ("rot", R::shape()),
-            ("disp", V::shape()),
-        ])
-    }
-    fn gen_kinds(out: &mut Vec<(Kind, GenClass)>) {
-        <V::Scalar as Subject>::gen_kinds(out);
-        R::gen_kinds(out);
-        V::gen_kinds(out);
-    }
-    fn build(c: &mut Cur) -> Self {
-        let scale = <V::Scalar as Subject>::build(c);
-        let rot = R::build(c);
-        let disp = V::build(c);
-        Decomposed { scale, rot, disp }
-    }
-    fn read(&self, out: &mut Vec<u64>) {
-        self.scale.read(out);
-        self.rot.read(out);
-        self.disp.read(out);
-    }
-    fn faithful() -> bool {
-        <V::Scalar as Subject>::faithful() && R::faithful() && V::faithful()
-    }
-}
+decomposed!(
+    [Vector3<f32>, Quaternion<f32>, f32],
+    [Vector3<f64>, Quaternion<f64>, f64],
+    [Vector3<f32>, Basis3<f32>, f32],
+    [Vector3<f64>, Basis3<f64>, f64],
+    [Vector2<f32>, Basis2<f32>, f32],
+    [Vector2<f64>, Basis2<f64>, f64],
+    [Vector4<f64>, Matrix4<f64>, f64],
+    [Vector1<f32>, Rad<f32>, f32],
+    [Vector2<f64>, Euler<Deg<f64>>, f64],
+    [Vector3<i32>, Quaternion<i32>, i32],
+    [Vector3<f64>, Matrix3<f64>, f64],
+    [Vector3<f32>, Euler<Rad<f32>>, f32],
+);
